@@ -23,12 +23,23 @@ SAMPLES = {
 }
 
 
+PLAIN = {'ID': ['a', 'b', 't'], 'QUOTE_STRING': ["'s'"], 'DQUOTE_STRING': ['"d"'], 'INTEGER': ['1', '2'], 'FLOAT': ['1.5']}
+MODE = {'plain': False}
+
+
+def set_plain(flag):
+    """plain sample lexemes only (no names with blanks, no empty strings): failures then depend on the productions alone"""
+    if MODE['plain'] != flag:
+        MODE['plain'] = flag
+        _CACHE.clear()
+
+
 def lexemes(dialect):
     """terminal name -> list of texts that lex to exactly that token"""
     L, P = _classes(dialect)
     out = {}
     for name in sorted(L.tokens):
-        cands = list(SAMPLES.get(name, []))
+        cands = list((PLAIN if MODE['plain'] else {}).get(name) or SAMPLES.get(name, []))
         pat = getattr(L, name, None)
         if isinstance(pat, str):
             s = pat.replace('\\b', '')
@@ -78,8 +89,8 @@ def grammar(dialect):
     return _CACHE[dialect]
 
 
-def derive(rng, dialect, budget=14, start=None):
-    """-> list of (terminal name, lexeme)"""
+def derive(rng, dialect, budget=14, start=None, used=None):
+    """-> list of (terminal name, lexeme); the productions applied are added to `used` (a set of 'lhs -> rhs' strings) if given"""
     prods, lx, ml, st = grammar(dialect)
     INF = 10 ** 9
     out = []
@@ -94,6 +105,8 @@ def derive(rng, dialect, budget=14, start=None):
             m = min(sum(ml[s] for s in r) for r in alts)
             fit = [r for r in alts if sum(ml[s] for s in r) == m]
         rhs = rng.choice(fit)
+        if used is not None:
+            used.add(f'{sym} -> {" ".join(rhs)}')
         need = sum(ml[s] for s in rhs)
         spare = max(0, budget - need)
         for s in rhs:
@@ -104,13 +117,14 @@ def derive(rng, dialect, budget=14, start=None):
     return out
 
 
-def sentence(rng, dialect, budget=14, start=None):
-    toks = derive(rng, dialect, budget, start)
+def sentence(rng, dialect, budget=14, start=None, used=None):
+    toks = derive(rng, dialect, budget, start, used)
     return ' '.join(l for _, l in toks)
 
 
-def statements(rng, dialect, n, budget=14):
-    """n distinct generated texts; every top-level alternative of the start symbol is used in turn"""
+def statements(rng, dialect, n, budget=14, with_prods=False):
+    """n distinct generated texts; every top-level alternative of the start symbol is used in turn
+    (with_prods: pairs (text, set of productions applied))"""
     prods, lx, ml, st = grammar(dialect)
     INF = 10 ** 9
     heads = [r[0] for r in prods[st] if len(r) == 1 and ml.get(r[0], INF) < INF] or [st]
@@ -119,10 +133,13 @@ def statements(rng, dialect, n, budget=14):
     while len(out) < n and tries < n * 6:
         tries += 1
         h = heads[tries % len(heads)]
-        s = sentence(rng, dialect, rng.choice([6, 10, budget, budget + 8]), start=h)
+        used = set()
+        s = sentence(rng, dialect, rng.choice([6, 10, budget, budget + 8]), start=h, used=used)
         if s not in seen:
             seen.add(s)
-            out.append(s)
+            if h != st:
+                used.add(f'{st} -> {h}')
+            out.append((s, used) if with_prods else s)
     return out
 
 
@@ -148,7 +165,7 @@ def _spines(dialect):
     return parent
 
 
-def covering(rng, dialect, per_prod=2, budget=10):
+def covering(rng, dialect, per_prod=2, budget=10, with_prods=False):
     """texts in which every production of the grammar is used at least per_prod times (as far as its symbols have sample lexemes):
     the chain of productions from the start symbol down to the production's left-hand side, everything beside the chain derived
     at random with a small budget"""
@@ -157,8 +174,10 @@ def covering(rng, dialect, per_prod=2, budget=10):
     INF = 10 ** 9
     out, seen = [], set()
 
+    cur_used = [None]
+
     def rnd(sym, b):
-        return [l for _, l in derive(rng, dialect, b, start=sym)] if sym in prods else [rng.choice(lx[sym])]
+        return [l for _, l in derive(rng, dialect, b, start=sym, used=cur_used[0])] if sym in prods else [rng.choice(lx[sym])]
 
     for n, alts in sorted(prods.items()):
         if n not in parent:
@@ -168,6 +187,7 @@ def covering(rng, dialect, per_prod=2, budget=10):
                 continue
             for _ in range(per_prod):
                 words = []
+                cur_used[0] = {f'{n} -> {" ".join(rhs)}'}
                 for s in rhs:
                     words += rnd(s, ml[s] + rng.randint(0, budget))
                 cur = n
@@ -180,9 +200,10 @@ def covering(rng, dialect, per_prod=2, budget=10):
                         elif i > pos:
                             right += rnd(s, ml[s] + rng.randint(0, 3))
                     words = left + words + right
+                    cur_used[0].add(f'{up} -> {" ".join(urhs)}')
                     cur = up
                 t = ' '.join(words)
                 if t not in seen:
                     seen.add(t)
-                    out.append(t)
+                    out.append((t, cur_used[0]) if with_prods else t)
     return out
